@@ -80,9 +80,19 @@ struct strided {
                     idx += tmp;
                 }
 
+                typename contravariant_input_t::vector_t c;
+
+                for (std::size_t i = 0; i < contravariant_input_t::dimensions;
+                     ++i) {
+                    c[i] = static_cast<
+                        typename contravariant_input_t::vector_t::value_type>(
+                        t[i]
+                    );
+                }
+
                 for (std::size_t i = 0; i < covariant_output_t::dimensions; ++i)
                 {
-                    res[idx][i] = nother.at(t)[i];
+                    res[idx][i] = nother.at(c)[i];
                 }
             },
             sizes
